@@ -31,4 +31,9 @@ class WithDims(Transform):
     def _apply(self, x, **kwargs):
         # if self.dims is a single number we will return an array with the
         # spatial dimension missing - always reshape to avoid this case.
-        return x[:, self.dims].reshape([x.shape[0], -1]).copy()
+        # (the kept axes are counted on the slice itself: with no points at
+        # all there is nothing a -1 could be inferred from)
+        sliced = x[:, self.dims]
+        if sliced.ndim == 1:
+            sliced = sliced[:, None]
+        return sliced.copy()
